@@ -214,6 +214,14 @@ class Env:
         self.loop = VLoop(self)
         return self.loop
 
+    def backend_options(self) -> dict:
+        return {"loop_factory": self.loop_factory}
+
+    @property
+    def actions(self) -> dict:
+        assert self.loop is not None
+        return self.loop.actions
+
     def log(self, *ev: Any) -> None:
         if self.frozen:
             return
